@@ -431,7 +431,20 @@ class Ovld:
         return self.dispatch.__signature__
 
     def lock(self):
+        """Prevent modification of this ovld and of those it derives from."""
         self._locked = True
+        for mixin in self.mixins:
+            mixin.lock()
+
+    def _lock_parents(self):
+        """Lock every ancestor whose changes would not reach this ovld."""
+        for mixin in self.mixins:
+            if self in mixin.children:
+                # The mixin propagates its changes to us, but its own
+                # parents may not propagate theirs to it.
+                mixin._lock_parents()
+            else:
+                mixin.lock()
 
     def _attempt_modify(self):
         if self._locked:
@@ -499,9 +512,7 @@ class Ovld:
         modification.
         """
         with _build_lock:
-            for mixin in self.mixins:
-                if self not in mixin.children:
-                    mixin.lock()
+            self._lock_parents()
 
             if self.name is None:
                 self.name = self.__name__ = f"ovld{self.id}"
